@@ -228,7 +228,7 @@ impl Insert {
                 .flatten()
                 .filter_map(Value::as_str)
                 .map(|string| (string, 1)),
-            0,
+            &HashMap::new(),
         ) {
             invalid_input!(
                 "Cannot insert rows into table {:?}: too many distinct \
@@ -750,16 +750,14 @@ impl Update {
                 None => true,
             })
             .collect();
-        let updates: Vec<(usize, Value)> = self
-            .updates
-            .into_iter()
-            .map(|(column_name, value)| {
-                let index =
-                    table.index_for_column_name(&column_name).unwrap();
-                (index, value.into_stored())
-            })
-            .collect();
-        // Count the pool entries that replacing the old cells will free.
+        // When a column is assigned more than once, the last assignment wins.
+        let mut updates = Vec::<(usize, Value)>::new();
+        for (column_name, value) in self.updates.into_iter() {
+            let index = table.index_for_column_name(&column_name).unwrap();
+            updates.retain(|upd| upd.0 != index);
+            updates.push((index, value.into_stored()));
+        }
+        // Count the references that replacing the old cells will release.
         let mut num_released = HashMap::<i32, u32>::new();
         for (value_refs, &matched) in rows.iter().zip(should_update.iter()) {
             if matched {
@@ -771,26 +769,13 @@ impl Update {
                 }
             }
         }
-        let num_freed = rows
-            .iter()
-            .flatten()
-            .filter_map(|value_ref| match value_ref {
-                ValueRef::Str(string_ref) => Some(*string_ref),
-                _ => None,
-            })
-            .filter(|string_ref| {
-                num_released.remove(&string_ref.number()).is_some_and(
-                    |count| string_pool.refcount(*string_ref) as u32 <= count,
-                )
-            })
-            .count();
         let num_matched = should_update.iter().filter(|&&m| m).count();
         if !string_pool.has_room_for(
             updates
                 .iter()
                 .filter_map(|upd| upd.1.as_str())
                 .map(|string| (string, num_matched)),
-            num_freed,
+            &num_released,
         ) {
             invalid_input!(
                 "Cannot update table {:?}: too many distinct strings in the \
@@ -811,7 +796,7 @@ impl Update {
                     .iter()
                     .map(|&index| {
                         let assigned = if matched {
-                            updates.iter().rev().find(|upd| upd.0 == index)
+                            updates.iter().find(|upd| upd.0 == index)
                         } else {
                             None
                         };
@@ -832,15 +817,27 @@ impl Update {
                 keys_set.insert(keys);
             }
         }
-        // Update the rows.
+        // Update the rows: release all the old cells first, so that the pool
+        // entries they free are available (as the capacity check above
+        // assumed) when the new values are interned.
+        for (value_refs, &matched) in
+            rows.iter_mut().zip(should_update.iter())
+        {
+            if matched {
+                for (index, _) in updates.iter() {
+                    let value_ref = &mut value_refs[*index];
+                    value_ref.remove(string_pool);
+                    *value_ref = ValueRef::Null;
+                }
+            }
+        }
         for (value_refs, &matched) in
             rows.iter_mut().zip(should_update.iter())
         {
             if matched {
                 for (index, value) in updates.iter() {
-                    let value_ref = &mut value_refs[*index];
-                    value_ref.remove(string_pool);
-                    *value_ref = ValueRef::create(value.clone(), string_pool);
+                    value_refs[*index] =
+                        ValueRef::create(value.clone(), string_pool);
                 }
             }
         }
